@@ -359,6 +359,23 @@ def run_impl(xr, c):
     if c["pre"]:
         kw["dset_lons"] = ds.lon.values.copy()
         kw["dset_lats"] = ds.lat.values.copy()
+    elif (len(c["dl"]) + len(c["ql"])) % 3 == 0:
+        # the dataset has a history: the same Dataset object held its stations elsewhere (other convention, shifted) when its
+        # accessor first served a selection, and its coordinates were then replaced in place; the selection below must be made
+        # from the stations it holds now
+        real_lon, real_lat = ds["lon"].variable.copy(deep=True), ds["lat"].variable.copy(deep=True)
+        try:
+            ds["lon"] = (ds["lon"].dims, (np.asarray(ds.lon.values, dtype=float) + 97.0) % 360.0)
+            ds["lat"] = (ds["lat"].dims, -np.asarray(ds.lat.values, dtype=float) * 0.5)
+            for mm in ("nearest", "idw", "bbox"):
+                try:
+                    ds.spec.sel(lons=[10.0, 200.0], lats=[-5.0, 5.0], method=mm, tolerance=400.0)
+                except Exception:
+                    pass
+        finally:
+            ds["lon"] = real_lon
+            ds["lat"] = real_lat
+        before = (ds.lon.values.copy(), ds.lat.values.copy(), ds.efth.values.copy())
     try:
         out = ds.spec.sel(lons=lons, lats=lats, method=m, tolerance=float(c["tol"]), **kw)
     except (AssertionError, ValueError, NotImplementedError, KeyError, IndexError, TypeError, ZeroDivisionError) as e:
